@@ -71,14 +71,14 @@ Section Real.
         * assert (H : emits (BAsg a' OpStar) [Ev a' OpStar [SInt 0; SInt 1]]) by (apply E1; exact I).
           split; [eexists; exact H|]. split; intro Hc; (eexists; split; [exact H|]);
             unfold values_of; cbn [flat_map ev_attr]; rewrite Ea; cbn; lia.
-        * assert (H : emits (BAsg a' OpPlus) [Ev a' OpPlus [SInt 0; SInt 1]]) by (apply E1; cbn; discriminate).
+        * assert (H : emits (BAsg a' OpPlus) [Ev a' OpPlus [SInt 0; SInt 1]]) by (apply E1; exact I).
           split; [eexists; exact H|]. split; intro Hc; (eexists; split; [exact H|]);
             unfold values_of; cbn [flat_map ev_attr]; rewrite Ea; cbn; lia.
       + split; [|split; intro; lia]. destruct op.
         * eexists. apply E1. exists (SInt 0). reflexivity.
         * eexists. apply E1. reflexivity.
         * eexists. apply (E1 []). exact I.
-        * eexists. apply (E1 [SInt 0]). cbn. discriminate.
+        * eexists. apply (E1 [SInt 0]). exact I.
     - cbn [maxcount]. eapply real_spec_imp; [| | |apply (real_seq l IH Hne)].
       + intros t H. apply emits_BSeq, H.
       + apply cap2_ge1.
